@@ -1141,11 +1141,14 @@ void lp_interval_pow(lp_interval_t* pow, const lp_interval_t* I, unsigned n) {
         // P = [0, max(a, b)^n]
         int a_point = lp_value_pow_approx(&I->a, n, 0, &result.a);
         int b_point = lp_value_pow_approx(&I->b, n, 0, &result.b);
-        if (lp_interval_endpoint_lt(&result.b, !I->b_open, &result.a, !I->a_open)) {
+        // an upper bound that is only approximate is an open end
+        int a_pow_open = I->a_open || !a_point;
+        int b_pow_open = I->b_open || !b_point;
+        if (lp_interval_endpoint_lt(&result.b, !b_pow_open, &result.a, !a_pow_open)) {
           lp_value_swap(&result.b, &result.a);
-          result.b_open = I->a_open || !a_point;
+          result.b_open = a_pow_open;
         } else {
-          result.b_open = I->b_open || !b_point;
+          result.b_open = b_pow_open;
         }
         lp_value_assign_zero(&result.a);
         result.a_open = 0;
